@@ -78,6 +78,8 @@ type Path struct {
 	intr  map[string]int         // intrinsics used
 
 	hostState map[string]interface{} // per-path state for intrinsics
+	isTemplate bool
+	memo       *copyMemo
 }
 
 func newPath(eng *Engine, sol *Solver, prefix []decision) *Path {
@@ -318,7 +320,11 @@ func (p *Path) globalAddr(g *ssa.Global) *value {
 	if c, ok := p.globals[g]; ok {
 		return c
 	}
-	p.initPkg(g.Pkg)
+	if p.isTemplate {
+		p.initPkg(g.Pkg)
+	} else {
+		p.cloneFromTemplate(g.Pkg)
+	}
 	if c, ok := p.globals[g]; ok {
 		return c
 	}
@@ -327,7 +333,48 @@ func (p *Path) globalAddr(g *ssa.Global) *value {
 	return &cell
 }
 
+// cloneFromTemplate copies the initialised globals of pkg from the engine's
+// template path (package initialisers run once per engine, not once per path).
+func (p *Path) cloneFromTemplate(pkg *ssa.Package) {
+	if pkg == nil || p.inited[pkg] {
+		return
+	}
+	p.inited[pkg] = true
+	e := p.eng
+	e.tmplMu.Lock()
+	defer e.tmplMu.Unlock()
+	if e.tmpl == nil {
+		e.tmpl = newPath(e, nil, nil)
+		e.tmpl.isTemplate = true
+	}
+	func() {
+		defer func() {
+			if r := recover(); r != nil {
+				e.tmpl.note("template init of %s failed: %v", pkg.Pkg.Path(), firstLine(fmt.Sprint(r)))
+			}
+		}()
+		e.tmpl.initPkg(pkg)
+	}()
+	if p.memo == nil {
+		p.memo = newCopyMemo()
+	}
+	for _, m := range pkg.Members {
+		if g, ok := m.(*ssa.Global); ok {
+			if tc, ok := e.tmpl.globals[g]; ok {
+				p.globals[g] = deepCopyM(tc, p.memo).(*value)
+			}
+		}
+	}
+	for n, c := range e.tmpl.notes {
+		_ = n
+		p.notes = append(p.notes, c)
+	}
+	e.tmpl.notes = nil
+}
+
 var noInitPkgs = map[string]bool{
+	"github.com/cosmos/gogoproto/proto": true, "github.com/golang/protobuf/proto": true,
+	"github.com/cosmos/gogoproto/jsonpb": true, "github.com/cosmos/gogoproto/types": true,
 	"runtime": true, "os": true, "syscall": true, "reflect": true, "internal/reflectlite": true,
 	"sync": true, "sync/atomic": true, "unsafe": true, "internal/poll": true, "net": true,
 	"testing": true, "log": true, "internal/godebug": true, "time": true,
